@@ -64,6 +64,12 @@ func c05Cases(cfg vlib.Cfg) []*c05Spec {
 			sp = c05EarlyContextCase(r)
 		case i%40 == 37 && i < 240:
 			sp = c05SvcLoopCase(r)
+		case i%40 == 11 && i < 240:
+			sp = c05ReportBusyCase(r)
+		case i%40 == 21 && i < 240:
+			sp = c05SvcBackoffCase(r)
+		case i%40 == 31 && i < 240:
+			sp = c05StopPanicCase(r)
 		case i%40 == 9:
 			sp = c05StragglerCase(r)
 		case i%40 == 19 && i < 320:
@@ -703,5 +709,69 @@ func c05NotifyManagesCase(r *vlib.Rand) *c05Spec {
 		ms.Items = append(ms.Items, &c05Item{ID: "ma-c2", Kind: kWorker, Settled: true, Wait: "ctx", LingerMs: 1, Cycle: 2})
 	}
 	sp.Mods = []*c05Mod{ms, dep}
+	return sp
+}
+
+// The next three classes put something that the stop path merely depends on between the
+// return of the user's work and the completion of the stop. The stop timeout is shortened
+// to 2 s, the verdict is P3: the stop may not end through modules.stop.timeout when the
+// stop routine and every work item had returned long before.
+
+// c05ReportBusyCase: an error reporting channel that nobody reads is installed and work
+// items of ma panic when they are cancelled (the panic is reported before the item is
+// taken off the module's counter).
+func c05ReportBusyCase(r *vlib.Rand) *c05Spec {
+	sp := &c05Spec{Class: "reportbusy", Limit: 64, StopTimeoutMs: 2000, StopVia: "shutdown", ReportChan: true}
+	dep := &c05Mod{Name: "m0", StopDelayMs: 0}
+	dep.Items = append(dep.Items, &c05Item{ID: "m0-w", Kind: kWorker, Settled: true, Wait: "ctx", Cycle: 1})
+	ms := &c05Mod{Name: "ma", Deps: []string{"m0"}, StopDelayMs: vlib.Pick(r, 0, 1, 5), StopErr: r.Chance(1, 3)}
+	n := r.Range(1, 3)
+	for j := 0; j < n; j++ {
+		ms.Items = append(ms.Items, &c05Item{ID: fmt.Sprintf("ma-p%d", j), Kind: vlib.Pick(r, kWorker, kWorkerRun, kSvc, "mt_start_med", "mt_run_low", kHook), Settled: true,
+			Wait: "ctx", LingerMs: vlib.Pick(r, 0, 1, 5), Cycle: 1, PanicAtEnd: true, SrcMod: "ma"})
+	}
+	ms.Items = append(ms.Items, &c05Item{ID: "ma-w", Kind: kWorker, Settled: true, Wait: "ctx", LingerMs: 1, Cycle: 1})
+	sp.Mods = []*c05Mod{ms, dep}
+	if r.Chance(1, 3) {
+		sp.Mgmt, sp.StopVia, sp.Disable = true, "manage", []string{"ma"}
+	}
+	return sp
+}
+
+// c05SvcBackoffCase: a service worker's function returns an error right before the stop,
+// so the worker sits in a 6 s back-off when its module is stopped.
+func c05SvcBackoffCase(r *vlib.Rand) *c05Spec {
+	sp := &c05Spec{Class: "svcbackoff", Limit: 64, StopTimeoutMs: 2000, StopVia: "shutdown"}
+	dep := &c05Mod{Name: "m0", StopDelayMs: 0}
+	dep.Items = append(dep.Items, &c05Item{ID: "m0-w", Kind: kWorker, Settled: true, Wait: "ctx", Cycle: 1})
+	ms := &c05Mod{Name: "ma", Deps: []string{"m0"}, StopDelayMs: vlib.Pick(r, 0, 1, 5), StopNil: r.Chance(1, 4)}
+	// two leading invocations: ErrRestartNow, then a plain error (back-off 1 x 6 s)
+	ms.Items = append(ms.Items, &c05Item{ID: "sv0", Kind: kSvc, Settled: false, Wait: "ctx", Restarts: 2, BackoffMs: 6000, Cycle: 1})
+	if r.Bool() {
+		ms.Items = append(ms.Items, &c05Item{ID: "ma-w", Kind: vlib.Pick(r, kWorker, "mt_start_med"), Settled: true, Wait: "ctx", LingerMs: vlib.Pick(r, 0, 1, 5), Cycle: 1})
+	}
+	sp.Mods = []*c05Mod{ms, dep}
+	sp.WaitHit = "item.pre|sv0#1"
+	if r.Chance(1, 3) {
+		sp.Mgmt, sp.StopVia, sp.Disable = true, "manage", []string{"ma"}
+	}
+	return sp
+}
+
+// c05StopPanicCase: the stop routine panics and is the last thing of the module to end.
+func c05StopPanicCase(r *vlib.Rand) *c05Spec {
+	sp := &c05Spec{Class: "stoppanic", Limit: 64, StopTimeoutMs: 2000, StopVia: "shutdown"}
+	dep := &c05Mod{Name: "m0", StopDelayMs: 0}
+	dep.Items = append(dep.Items, &c05Item{ID: "m0-w", Kind: kWorker, Settled: true, Wait: "ctx", Cycle: 1})
+	ms := &c05Mod{Name: "ma", Deps: []string{"m0"}, StopDelayMs: vlib.Pick(r, 20, 40), StopPanic: true}
+	n := r.Range(0, 3)
+	for j := 0; j < n; j++ {
+		ms.Items = append(ms.Items, &c05Item{ID: fmt.Sprintf("ma-i%d", j), Kind: vlib.Pick(r, kWorker, kWorkerRun, kSvc, "mt_start_med", "mt_sig_high"), Settled: true,
+			Wait: "ctx", LingerMs: vlib.Pick(r, 0, 1, 5), Cycle: 1, DoneCalls: 1})
+	}
+	sp.Mods = []*c05Mod{ms, dep}
+	if r.Chance(1, 3) {
+		sp.Mgmt, sp.StopVia, sp.Disable = true, "manage", []string{"ma"}
+	}
 	return sp
 }
